@@ -1,6 +1,4 @@
-//go:build ignore
-
-package eng
+package mirroreng
 
 // Engine `mirror` (C15): the real witness.Witness with a mirror key (POST /add-entries and
 // /add-checkpoint through the public Handler) over fault-injecting in-memory stores, driven by a
@@ -28,12 +26,13 @@ package eng
 
 import (
 	"encoding/json"
+	"filippo.io/sunlight/verifharness/internal/eng"
 	"fmt"
 	"os"
 	"time"
 )
 
-func init() { Registry["mirror"] = runMirror }
+func init() { eng.Registry["mirror"] = runMirror }
 
 type mirrorFamily struct {
 	name  string
@@ -42,7 +41,7 @@ type mirrorFamily struct {
 
 func mirrorFamilies() []mirrorFamily {
 	return []mirrorFamily{
-		{"basic", 14}, {"ranges", 12}, {"trunc", 12}, {"interleave", 32}, {"tickets", 10},
+		{"basic", 16}, {"ranges", 14}, {"trunc", 12}, {"interleave", 40}, {"tickets", 12},
 		{"wrong", 12}, {"faults", 2 * len(mirrorFaultList())}, {"restart", 24}, {"misc", 6},
 	}
 }
@@ -51,14 +50,14 @@ func mirrorCasesFor(seed uint64, mult int, wide bool) []mirrorCase {
 	var cs []mirrorCase
 	for _, f := range mirrorFamilies() {
 		for i := 0; i < f.count*mult; i++ {
-			cs = append(cs, mirrorCase{Family: f.name, Idx: i, Seed: seed, Wide: wide && i >= f.count, Enforce: i%2 == 1})
+			cs = append(cs, mirrorCase{Family: f.name, Idx: i, Seed: seed, Wide: wide && i >= f.count && i%3 == 0, Enforce: i%2 == 1})
 		}
 	}
 	return cs
 }
 
 // mirrorRunCase runs one scenario. It reports the oracle failures and whether the harness lost control.
-func mirrorRunCase(c mirrorCase, tr *Trace, st *Stats) ([]OracleFailure, bool) {
+func mirrorRunCase(c mirrorCase, tr *eng.Trace, st *eng.Stats) ([]eng.OracleFailure, bool) {
 	r := mirrorCaseRand(c)
 	st.Count("family:" + c.Family)
 	st.Count(fmt.Sprintf("enforce:%d", mirrorB2I(c.Enforce)))
@@ -111,7 +110,7 @@ func mirrorRunCase(c mirrorCase, tr *Trace, st *Stats) ([]OracleFailure, bool) {
 		w = mirrorNewWorld(c, r, tr, st, []mirrorLogDef{{size(600), true}, {size(400), false}, {size(400), true}})
 		w.famMisc()
 	default:
-		return []OracleFailure{{Property: "C15", Signature: "bad-case", Detail: "unknown family " + c.Family, Case: c}}, false
+		return []eng.OracleFailure{{Property: "C15", Signature: "bad-case", Detail: "unknown family " + c.Family, Case: c}}, false
 	}
 	st.Count(fmt.Sprintf("max-parked:%d", w.maxPark))
 	st.CountN("restarts", w.epoch)
@@ -120,11 +119,11 @@ func mirrorRunCase(c mirrorCase, tr *Trace, st *Stats) ([]OracleFailure, bool) {
 }
 
 func runMirror(args []string) int {
-	o := ParseOpts("mirror", args, nil)
-	st := NewStats("mirror", "distinct add-entries requests by (header form, ticket kind, per-step fault plan, store effects with applied flags, response status/class), counting those that got past the metadata step")
-	var tr *Trace
+	o := eng.ParseOpts("mirror", args, nil)
+	st := eng.NewStats("mirror", "distinct add-entries requests by (header form, ticket kind, per-step fault plan, store effects with applied flags, response status/class), counting those that got past the metadata step")
+	var tr *eng.Trace
 	if !o.Search {
-		tr = NewTrace(o.Out)
+		tr = eng.NewTrace(o.Out)
 		defer tr.Close()
 	}
 	mirrorInstallHooks()
@@ -145,7 +144,7 @@ func runMirror(args []string) int {
 		}
 		cases = []mirrorCase{doc.Case}
 	case o.Search:
-		for s := uint64(0); s < 6; s++ {
+		for s := uint64(0); s < 18; s++ {
 			cases = append(cases, mirrorCasesFor(o.Seed+s*7919, 1, s%2 == 1)...)
 		}
 	case o.Tier == "thorough":
@@ -161,7 +160,7 @@ func runMirror(args []string) int {
 		budget = 4 * time.Minute
 	}
 	deadline := time.Now().Add(budget)
-	var fails []OracleFailure
+	var fails []eng.OracleFailure
 	ran := 0
 	for _, c := range cases {
 		if time.Now().After(deadline) {
@@ -176,7 +175,7 @@ func runMirror(args []string) int {
 		}
 		if broken {
 			fmt.Fprintln(os.Stderr, "mirror: lost control of a request goroutine in", c)
-			Finish(o.Out, st, fails)
+			eng.Finish(o.Out, st, fails)
 			return 3
 		}
 		if len(fails) > 20 {
@@ -184,6 +183,6 @@ func runMirror(args []string) int {
 		}
 	}
 	st.CountN("scenarios", ran)
-	Finish(o.Out, st, fails)
+	eng.Finish(o.Out, st, fails)
 	return 0
 }
